@@ -128,6 +128,8 @@ def _observe_poly(n, spec, inputs, out):
 
 def judge(spec, inputs, out, ob):
     if out["error"] is not None:
+        if " in construct: " in out["error"]:
+            return False, "constructor rejects the instantiation"
         return True, "base64 round trip raised: " + out["error"] + " | inputs=%s" % (inputs,)
     bad = []
     if not out.get("is_str"):
